@@ -26,6 +26,7 @@ type Engine struct {
 	inst        map[string][]*ssa.Function // generic contract key -> instantiations used by the program
 	effMemo     map[*ssa.Function]*effectSet
 	effDone     map[*ssa.Function]bool
+	effByClause map[string]string // repository functions the effect inference did not descend into: their write effect is taken from the contract
 	retGlobal   map[*ssa.Function]string            // functions that return an object read from a package-level variable
 	viaExternal map[ssa.Instruction]string          // calls of contract-less dependency functions that are handed pre-existing memory
 	viaGlobal   map[ssa.Instruction]string          // write sites that go through a value read from a package-level variable
